@@ -993,6 +993,8 @@ postfixexpr(struct scope *s, struct expr *r)
 			if (r->type->kind != TYPEPOINTER || r->type->base->kind != TYPEFUNC)
 				error(&tok.loc, "called object is not a function");
 			t = r->type->base;
+			if (t->base->incomplete && t->base != &typevoid)
+				error(&tok.loc, "called function has incomplete return type");
 			e = mkexpr(EXPRCALL, t->base, r);
 			e->u.call.args = NULL;
 			e->u.call.nargs = 0;
